@@ -1,5 +1,6 @@
 """C03 - alignment puts all timeseries on the prescribed common index, values intact."""
 import math
+import collections
 import numpy as np
 import pandas as pd
 from .. import proto
@@ -40,7 +41,42 @@ SCALARS = [None, 1, 2.5, 'a', 'xyz', True]
 
 # ------------------------------------------------------------------ wire
 
-def enc_tree(x):
+class MyDict(dict):
+    """a user subclass of dict (review v4 2.1): `_list` / `df_index` open every `isinstance(.., dict)`, `loops` used to open only the
+    classes it was given by exact type"""
+
+
+def like_dict(x, items):
+    """a dict of the same class as x (a defaultdict keeps its factory)"""
+    if isinstance(x, collections.defaultdict):
+        return collections.defaultdict(x.default_factory, items)
+    return type(x)(items)
+
+
+def subdicts(rng, x, p=0.5):
+    """the same tree with some of its dicts as a dict SUBCLASS instance / a defaultdict"""
+    if isinstance(x, (list, tuple)):
+        return type(x)(subdicts(rng, v, p) for v in x)
+    if isinstance(x, dict) and 'index' not in x:
+        kids = {k: subdicts(rng, v, p) for k, v in x.items()}
+        r = rng.random()
+        return MyDict(kids) if r < p / 2 else collections.defaultdict(list, kids) if r < p else kids
+    return x
+
+
+def has_subdict(x):
+    if isinstance(x, (list, tuple)):
+        return any(has_subdict(v) for v in x)
+    if isinstance(x, dict):
+        return type(x) is not dict or any(has_subdict(v) for v in x.values())
+    return False
+
+
+def enc_tree(x, reply=False):
+    """`reply`: a result - every dict spells `D` (the model has one kind of dict; that the CLASS of each container is kept is checked
+    by `passthrough_ok` on the implementation's side, `type(a) is type(b)`)"""
+    if reply:
+        return enc_tree(x).replace('(DS', '(D').replace('(DD', '(D')
     if isinstance(x, pd.Series):
         return '(ts %s)' % W.enc_series(x, S)
     if isinstance(x, pd.DataFrame):
@@ -54,7 +90,8 @@ def enc_tree(x):
     if isinstance(x, tuple):
         return '(T' + ''.join(' ' + enc_tree(v) for v in x) + ')'
     if isinstance(x, dict):
-        return '(D' + ''.join(' (%s %s)' % (proto.hexs(k), enc_tree(v)) for k, v in x.items()) + ')'
+        tag = 'D' if type(x) is dict else 'DD' if isinstance(x, collections.defaultdict) else 'DS'
+        return '(' + tag + ''.join(' (%s %s)' % (proto.hexs(k), enc_tree(v)) for k, v in x.items()) + ')'
     return '(o %s)' % proto.enc(x)
 
 
@@ -76,6 +113,10 @@ def dec_tree(sx):
         return tuple(dec_tree(v) for v in sx[1:])
     if h == 'D':
         return {proto.unhex(kv[0]): dec_tree(kv[1]) for kv in sx[1:]}
+    if h == 'DS':
+        return MyDict({proto.unhex(kv[0]): dec_tree(kv[1]) for kv in sx[1:]})
+    if h == 'DD':
+        return collections.defaultdict(list, {proto.unhex(kv[0]): dec_tree(kv[1]) for kv in sx[1:]})
     raise ValueError('bad tree %r' % (h,))
 
 
@@ -203,6 +244,10 @@ def generate(rng, tier):
         members, rel = rand_members(rng, with_frames)
         shape = rng.choice(['flat-list', 'flat-list', 'flat-list-pure', 'flat-tuple', 'flat-dict', 'nested2', 'nested2', 'nested3'] * 3 + ['nested-tuple'])
         tree = wrap(rng, members, shape)
+        if rng.random() < 0.25:
+            tree = subdicts(rng, tree)      # dict subclasses / defaultdicts (review v4 2.1)
+            if has_subdict(tree):
+                shape += '+subdict'
         how, m = rng.choice(HOWS), rng.choice(METHODS)
         r = rng.random()
         if r < 0.48:
@@ -447,7 +492,7 @@ def snapshot_tree(x):
     if isinstance(x, (list, tuple)):
         return type(x)(snapshot_tree(v) for v in x)
     if isinstance(x, dict):
-        return {k: snapshot_tree(v) for k, v in x.items()}
+        return like_dict(x, {k: snapshot_tree(v) for k, v in x.items()})
     return x
 
 
@@ -502,7 +547,7 @@ def run_line(state, sx):
         res = (tuple(res[:len(tree)]), {k: v for k, v in zip(kw, res[len(tree):])})
         if not (passthrough_ok(tree, res[0]) and passthrough_ok(kw, res[1])):
             return 'violation structure-or-passthrough %s' % enc_tree(res)
-        return 'ok ' + enc_tree(res)
+        return 'ok ' + enc_tree(res, True)
     elif op == 'presynck':
         kw = dec_tree(args[1])
         if not isinstance(tree, tuple) or not isinstance(kw, dict):
@@ -513,7 +558,7 @@ def run_line(state, sx):
             return 'violation input-modified'
         if not (isinstance(res, tuple) and len(res) == 2 and passthrough_ok(tree, res[0]) and passthrough_ok(kw, res[1])):
             return 'violation structure-or-passthrough %s' % enc_tree(res)
-        return 'ok ' + enc_tree(res)
+        return 'ok ' + enc_tree(res, True)
     elif op == 'index':
         ix = pyg_base.df_index(tree, args[1])
         if ix is None:
@@ -532,7 +577,7 @@ def run_line(state, sx):
         return 'violation input-modified'
     if not passthrough_ok(tree, res):
         return 'violation structure-or-passthrough %s' % (enc_tree(res) if not isinstance(res, type(None)) else 'None')
-    return 'ok ' + enc_tree(res)
+    return 'ok ' + enc_tree(res, True)
 
 
 def _canon_ordered(x):
@@ -674,9 +719,12 @@ def laws(rng, tier, ctx):
         members, rel = rand_members(rng, with_frames)
         shape = rng.choice(['flat-list', 'flat-tuple', 'flat-dict', 'nested2', 'nested3'])
         tree = wrap(rng, members, shape)
+        sub = rng.random() < 0.3
+        if sub:
+            tree = subdicts(rng, tree, 0.8)
         how, m = rng.choice(HOWS), rng.choice(METHODS)
         ch = rng.choice(['ij', 'oj', 'lj', 'rj']) if with_frames else 'ij'
-        case = dict(tag='law-sync', lines=['(align sync %s %s %s %s)' % (enc_tree(tree), how, m, ch)])
+        case = dict(tag='law-sync' + ('+subdict' if sub and has_subdict(tree) else ''), lines=['(align sync %s %s %s %s)' % (enc_tree(tree), how, m, ch)])
         try:
             res = pyg_base.df_sync(tree, how, dec_method(m), ch)
         except Exception as e:
@@ -883,4 +931,53 @@ def laws(rng, tier, ctx):
 
 
 shrink = W.shrink
-MATCHERS = {}
+def _plain(sx):
+    """the s-expression with every dict-subclass tag read as a plain dict"""
+    if isinstance(sx, str):
+        return sx
+    return ['D' if sx[0] in ('DS', 'DD') else sx[0]] + [_plain(y) for y in sx[1:]] if sx and isinstance(sx[0], str) else [_plain(y) for y in sx]
+
+
+def _unparse(sx):
+    return sx if isinstance(sx, str) else '(' + ' '.join(_unparse(y) for y in sx) + ')'
+
+
+def _graft(t_in, r_plain):
+    """the result for the plain-dict spelling, with every subtree that sits inside a dict SUBCLASS of the input put back as it went in"""
+    if isinstance(t_in, str) or isinstance(r_plain, str):
+        return r_plain
+    if t_in and t_in[0] in ('DS', 'DD'):
+        return _plain(t_in)
+    if len(t_in) != len(r_plain):
+        return r_plain
+    return [_graft(x, y) for x, y in zip(t_in, r_plain)]
+
+
+def dict_subclass_left_unaligned(f):
+    """C03-S1: df_sync / df_reindex over a tree holding an instance of a dict SUBCLASS (class MyDict(dict), collections.defaultdict) with
+    timeseries inside.  Matches ONLY the symptom of that finding: the implementation's answer is exactly its answer for the same tree
+    spelt with plain dicts, except that everything inside a subclass instance comes back as it went in.  A raise, a changed class, a wrong
+    value outside the subclass or a half-aligned series inside it is not this finding and stays a violation."""
+    line = f.case['lines'][0]
+    if len(f.case['lines']) != 1 or not ('(DS ' in line or '(DD ' in line):
+        return False
+    sx = proto.parse(line)
+    if sx[1] not in ('sync', 'reindex'):
+        return False
+    def holds_ts(t, inside):
+        if isinstance(t, str):
+            return False
+        if t and t[0] in ('ts', 'df'):
+            return inside
+        return any(holds_ts(y, inside or t[0] in ('DS', 'DD')) for y in t[1:])
+    if not holds_ts(sx[2], False):
+        return False
+    got = run_line(None, sx)
+    plain = run_line(None, proto.parse(_unparse(_plain(sx))))
+    if not (got.startswith('ok ') and plain.startswith('ok ')):
+        return False
+    want = _graft(sx[2], proto.parse(plain[3:]))
+    return proto.same_reply('ok ' + _unparse(want), got) and got != plain
+
+
+MATCHERS = {'dict_subclass_left_unaligned': dict_subclass_left_unaligned}
